@@ -316,6 +316,7 @@ def cmd_check(args):
         for f in ffuts:
             fuzz_results.append(f.result())
 
+    aborted_seen = {}
     merged = {"evaluations": 0, "sub_evaluations": 0, "labels": {}, "counters": {}, "discards": {}, "excluded_known": {}, "samples": []}
     hashes = set()
     inconclusive = []
@@ -340,7 +341,14 @@ def cmd_check(args):
                 keep = os.path.join(work, "crash_j%d_w%d.bin" % (ji, w))
                 shutil.copyfile(cur, keep)
                 head = [l for l in log.splitlines() if "ERROR" in l or "runtime error" in l or "SUMMARY" in l or "WARNING: ThreadSanitizer" in l or l.startswith("STALL:")]
-                confirm_and_record(j["engine"], keep, "engine aborted: " + (head[0][:300] if head else "exit %d" % rc), j.get("prop", pid))
+                what_abort = "engine aborted: " + (head[0][:300] if head else "exit %d" % rc)
+                # every worker of a job usually dies of the same cause: confirm (replay 3x, each possibly a 60-120 s stall) the first two, count the rest
+                sig = (j["engine"], re.sub(r"0x[0-9a-fA-F]+|\d+", "#", what_abort)[:90])
+                aborted_seen[sig] = aborted_seen.get(sig, 0) + 1
+                if aborted_seen[sig] > 2:
+                    notes.append("worker j%d w%d aborted the same way as an already confirmed case (%s): not replayed again" % (ji, w, what_abort[:120]))
+                    continue
+                confirm_and_record(j["engine"], keep, what_abort, j.get("prop", pid))
             else:
                 print("HARNESS-ERROR worker produced no summary and no current case; rc=%d" % rc)
                 print(log[-3000:])
